@@ -9,6 +9,7 @@ package c14
 import (
 	"crypto/ecdsa"
 	"crypto/elliptic"
+	"encoding/hex"
 	"encoding/pem"
 	"errors"
 	"fmt"
@@ -100,6 +101,13 @@ var rangeScalars = []string{
 // value is a valid private scalar for the target's key type.
 func plantedScalar(name string, n *big.Int, size int, maxValid *big.Int, seed uint64) (enc []byte, v *big.Int, valid bool) {
 	fill := func(x *big.Int) []byte { return x.FillBytes(make([]byte, size)) }
+	if isRawScalar(name) {
+		// "raw:<hex>": the octets themselves (any width, any value; used by the
+		// native fuzz target). Valid by value: 1 <= v <= maxValid.
+		enc = must(hex.DecodeString(name[4:]))
+		v = new(big.Int).SetBytes(enc)
+		return enc, v, v.Sign() > 0 && v.Cmp(maxValid) <= 0
+	}
 	switch name {
 	case "zero":
 		return make([]byte, size), big.NewInt(0), false
@@ -212,6 +220,13 @@ func checkRange(c rangeCase, r *h.Rec) error {
 	r.Label("scalar:" + c.Scalar)
 	r.NT()
 	tolerated := c.Scalar == "mid-lz-stripped" || c.Scalar == "mid-zero-padded"
+	// raw scalars (fuzz target): a width other than the prescribed one is the
+	// stripped / zero-padded tolerance - an error or exactly the same key
+	rawWidth := func(enc []byte, size int) {
+		if isRawScalar(c.Scalar) {
+			tolerated = len(enc) != size
+		}
+	}
 
 	var (
 		blob   []byte
@@ -235,6 +250,7 @@ func checkRange(c rangeCase, r *h.Rec) error {
 			r.Label("curve:" + cname)
 			n := curve.Params().N
 			enc, v, valid = plantedScalar(c.Scalar, n, (n.BitLen()+7)/8, new(big.Int).Sub(n, one), c.Seed)
+			rawWidth(enc, (n.BitLen()+7)/8)
 			k, finite := ecKeyFor(curve, v)
 			expect = k
 			if finite {
@@ -247,6 +263,7 @@ func checkRange(c rangeCase, r *h.Rec) error {
 			base = build(cspec{Key: kc, KSeed: c.Seed, Cont: cont})
 		default:
 			enc, v, valid = plantedScalar(c.Scalar, sm2N, 32, sm2Nm2, c.Seed)
+			rawWidth(enc, 32)
 			k, finite := sm2KeyFor(v)
 			expect = k
 			if finite {
@@ -373,6 +390,7 @@ func checkRange(c rangeCase, r *h.Rec) error {
 	case c.Target == "cfca":
 		var enc []byte
 		enc, v, valid = plantedScalar(c.Scalar, sm2N, 32, sm2Nm2, c.Seed)
+		rawWidth(enc, 32)
 		k, _ := sm2KeyFor(v)
 		expect = k
 		cert := certFor(&k.PublicKey, c.Seed)
@@ -454,6 +472,9 @@ func checkRange(c rangeCase, r *h.Rec) error {
 	r.Label("plant:accepted-correct-key")
 	return nil
 }
+
+// isRawScalar: the scalar name carries the octets to plant ("raw:<hex>").
+func isRawScalar(name string) bool { return hasPrefix(name, "raw:") }
 
 func isNISTTarget(t string) bool {
 	_, _, ok := nistCurveOf(t)
